@@ -514,6 +514,26 @@ func deviantSMP(w *world.World, wm *world.WireMsg, idx int) ([]byte, string, str
 		d.MAC = ref.HMAC1(keys.SendMAC, h.HdrBytes, d.Unsigned())
 		return ref.Armor(append(append([]byte{}, h.HdrBytes...), d.Bytes()...)), "bad", "t3-degenerate-consistent"
 	}
+	if idx%13 == 5 || idx%13 == 6 {
+		// an honest SMP payload next to a "disconnected" TLV in the same (authenticated) message:
+		// the session ends in the middle of the TLV list
+		disc := ref.TLV{Type: 1, Value: nil}
+		var nt []ref.TLV
+		name := "disconnect-before-smp"
+		for i, x := range tlvs {
+			if i == ti && idx%13 == 5 {
+				nt = append(nt, disc)
+			}
+			nt = append(nt, x)
+			if i == ti && idx%13 == 6 {
+				nt = append(nt, disc)
+				name = "disconnect-after-smp"
+			}
+		}
+		d.Enc = ref.CTR(keys.SendAES, d.Ctr[:], ref.JoinPlain(text, nt))
+		d.MAC = ref.HMAC1(keys.SendMAC, h.HdrBytes, d.Unsigned())
+		return ref.Armor(append(append([]byte{}, h.HdrBytes...), d.Bytes()...)), "", name
+	}
 	nfields := len(mpis)
 	nb := 9
 	total := nfields*nb + 5
